@@ -1,5 +1,6 @@
 import SR.Proofs.Checker.Verdict
 import SR.Proofs.Checker.Once
+import SR.Checker.Verdict
 /-!
 # C02 — always/sometimes verdicts are exact once a check completes
 
@@ -80,17 +81,6 @@ theorem C02_sometimes (hinj : ∀ a b, P.M.Reach a → P.M.Reach b → P.key a =
     · rw [hexp] at he; cases he
     · exact ⟨t, ht, h⟩
   · rintro ⟨t, ht, h⟩; exact ⟨t, ht, Or.inr ⟨hexp, h⟩⟩
-
-/-- `is_done()`: the market is closed (nothing pending, nobody working) or everything is discovered -/
-def isDone (s : St σ κ) : Bool := (s.frontier.isEmpty && s.active.isEmpty) || allDiscovered P s
-
-/-- `assert_properties()` does not panic: no discovery for any always/eventually property (and the check is
-    done), a discovery for every sometimes property -/
-def assertPropertiesOk (s : St σ κ) : Bool :=
-  (List.range P.props.length).all fun i =>
-    match P.props[i]? with
-    | some pr => if pr.exp == .sometimes then hasDisc s.disc i else (!hasDisc s.disc i && isDone P s)
-    | none => true
 
 /-- **assert_properties** (property lists of always/sometimes properties): it succeeds exactly when every
     always-property holds on all reachable states and every sometimes-property is witnessed; and `is_done`. -/
